@@ -6,7 +6,7 @@
 -/
 import Gts.Gen.Props
 namespace Gts.PropsG
-open Gts.Gen
+open Gts.Gen Gts.Gen.PropsGo
 
 variable {σ : Type} [DecidableEq σ]
 
